@@ -119,7 +119,8 @@ Fixpoint native_ok (v : jv) : bool :=
   | JNull | JBool true | JDec _ | JStr _ => true
   | JInt z => (-9223372036854775808 <=? z)%Z && (z <=? 9223372036854775807)%Z     (* an int64 *)
   | JBool false => false                (* comes back as null *)
-  | JBig _ => false                     (* json.Number has no Lisp counterpart: nil *)
+  | JBig z => negb (fits64 z)           (* json.Number <-> bignum (repo_fixes C18-1, C18-3); one that fits an int64
+                                           comes back as an int64 *)
   | JArr [] => false                    (* the empty list is nil *)
   | JArr l => (fix all (l : list jv) : bool := match l with [] => true | x :: r => native_ok x && all r end) l
   | JObj [] => false
@@ -136,13 +137,14 @@ Fixpoint plain (g : gov) : bool :=
   | GNil | GBool true | GF64 _ | GStr _ | GBytes _ | GTime _ => true
   | GBool false => false
   | GInt _ z => in_int64 z
-  | GNum _ => false
+  | GNum raw => match int_of_bytes raw with Some z => in_int64 z | None => false end   (* repo_fixes C18-1 *)
   | GSlice l => (fix all (l : list gov) : bool := match l with [] => true | x :: r => plain x && all r end) l
   | GMap _ => false
   end.
 Fixpoint norm_gov (g : gov) : gov :=
   match g with
   | GInt _ z => GInt KInt64 z
+  | GNum raw => match int_of_bytes raw with Some z => GInt KInt64 z | None => g end
   | GBytes s => GStr s
   | GSlice l => GSlice (map norm_gov l)
   | _ => g
